@@ -200,6 +200,61 @@ func ReplayLinkOps(cs *LoCase, profile int, backend string, scratch string) (*ru
 		ls.SetReadStorage(st)
 		ls.SetWriteStorage(st)
 	}
+	// the one value whose block is EMPTY (the raw codec with the empty byte string): stored, linked and loaded back by every
+	// load operation before the history starts (LinkOps!LoadAfterStore holds for every value, the empty block included)
+	for _, ps := range protos {
+		if !ps.rawOnly {
+			continue
+		}
+		lp := cidlink.LinkPrototype{Prefix: ps.prefix}
+		target := "LinkSystem[" + ps.name + "]"
+		var stage string
+		var err error
+		if p := model.Safe(func() {
+			empty := basicnode.NewBytes([]byte{})
+			var lnk datamodel.Link
+			stage = "Store"
+			if lnk, err = ls.Store(linking.LinkContext{}, lp, empty); err != nil {
+				return
+			}
+			want, werr := independentCid(ps.prefix, []byte{})
+			if werr == nil && lnk.Binary() != string(want) {
+				err = fmt.Errorf("link %x, independently computed %x", lnk.Binary(), want)
+				return
+			}
+			stage = "LoadRaw"
+			var raw []byte
+			if raw, err = ls.LoadRaw(linking.LinkContext{}, lnk); err != nil {
+				return
+			}
+			if len(raw) != 0 {
+				err = fmt.Errorf("%d raw bytes", len(raw))
+				return
+			}
+			stage = "LoadPlusRaw"
+			var n datamodel.Node
+			if n, raw, err = ls.LoadPlusRaw(linking.LinkContext{}, lnk, basicnode.Prototype.Any); err != nil {
+				return
+			}
+			if b, berr := n.AsBytes(); berr != nil || len(b) != 0 || len(raw) != 0 {
+				err = fmt.Errorf("node %v (%v), %d raw bytes", b, berr, len(raw))
+				return
+			}
+			stage = "Load"
+			if n, err = ls.Load(linking.LinkContext{}, lnk, basicnode.Prototype.Any); err != nil {
+				return
+			}
+			if b, berr := n.AsBytes(); berr != nil || len(b) != 0 {
+				err = fmt.Errorf("node %v (%v)", b, berr)
+			}
+		}); p != nil {
+			return fail(-1, target, "LoadAfterStore(empty block)/"+stage, "panic", fmt.Sprint(p)), checks
+		}
+		checks += 4
+		if err != nil {
+			return fail(-1, target, "LoadAfterStore(empty block)/"+stage, "error", err.Error()), checks
+		}
+	}
 	build := func(ps protoSpec, v int, variant string) (datamodel.Node, error) {
 		val := loValue(profile, v, ps)
 		switch variant {
